@@ -251,7 +251,8 @@ def _check_store(run: Run, it: Interp, fi: FuncInfo, node, st: dict, status: str
     if status == "VALIDATED":
         ev = it.schema_evidence(st)
         clean = errs == "F" or st.get("lenient") == "T"
-        ok = ev is not None and clean
+        same_pass = st.get("sv:cur") == st.get("sv:first")
+        ok = ev is not None and clean and same_pass
         run.instance("R10.3", where, f"{qual}: VALIDATED stored with schema evidence [{ev}] and errors {'empty' if errs == 'F' else ('downgraded (LENIENT/ULTRA)' if st.get('lenient') == 'T' else 'UNKNOWN')}", ok=ok)
         if not ok:
             why = []
@@ -259,6 +260,8 @@ def _check_store(run: Run, it: Interp, fi: FuncInfo, node, st: dict, status: str
                 why.append("no schema lookup is known to have succeeded on this path (unknown / malformed / unloadable schema name would be reported VALIDATED)")
             if not clean:
                 why.append(f"the validator's error list `{errvar}` is not known to be empty on this path")
+            if not same_pass:
+                why.append(f"the error list that is empty comes from a validation pass made with strict={st.get('sv:cur')}, while the pass that judged the document used strict={st.get('sv:first')}: errors that only the judging pass reports are invisible to it")
             run.violation("R10.3", mod, qual, node.ast, "VALIDATED is stored on a path where " + " and ".join(why),
                           facts={k: (v.describe() if isinstance(v, Envelope) else v) for k, v in st.items() if k.split(':')[0] in ('nn', 'tr', 'lk', 'vs', 'errvar', 'lenient')})
     elif status == "INVALID":
